@@ -24,6 +24,7 @@ Record case := mkCase
     cmaps : list (Z * list uact);
     cred : list uact;
     cevents : list event;
+    cprectx : bool;               (* the context has already ended when the call starts *)
     (* observed on the implementation *)
     ofired : list (bool * bool);  (* first entry: start of the call; then per event: a function was
                                      released; the call has returned at the following quiescence *)
@@ -180,13 +181,27 @@ Record mobs := mkObs
   { m_fired : list (bool * bool); m_result : option outcome; m_mapped : list Z;
     m_reduced : list Z; m_peak : nat; m_clean : bool; m_racy : bool; m_bad : bool }.
 
+(* cancel codes of the executor that stand for error values which are (errors.Is) ErrReduceNoOutput:
+   the sentinel itself and a %w-wrapped one *)
+Definition is_nooutput_code (k : Z) : bool := Z.eqb k 1002 || Z.eqb k 1005.
+
+(* MapReduceVoid / Finish: ErrReduceNoOutput is the expected outcome of the wrapped reducer and is
+   mapped to nil.  Today's MapReduceVoid (gen_voidSwallowsCancelledNoOutput, regenerated) does that
+   with errors.Is on whatever error comes back, also one that was passed to cancel. *)
 Definition post_result (a : api) (o : outcome) : outcome :=
-  if is_void a then match o with ONoOutput => OUnit | _ => o end else o.
+  if is_void a then
+    match o with
+    | ONoOutput => OUnit
+    | OErr (ECancel k) => if gen_voidSwallowsCancelledNoOutput && is_nooutput_code k then OUnit else o
+    | _ => o
+    end
+  else o.
 
 Definition model_run (c : case) : mobs :=
   let cf := cfg_of c in
   let auto := is_auto (capi c) in
-  let '(s0, r0, b0) := settle FUEL cf auto (init cf) false in
+  let i0 := if cprectx c then match step cf (init cf) LCtx with Some s => s | None => init cf end else init cf in
+  let '(s0, r0, b0) := settle FUEL cf auto i0 false in
   let '(s, fl, racy, bad) := drive cf auto s0 (cevents c) r0 b0 in
   mkObs ((true, returned s0) :: fl)
         (match result s with Some o => Some (post_result (capi c) o) | None => None end)
@@ -293,7 +308,8 @@ Definition prop_ok (c : case) : bool :=
   let items := sends (cgen c) in
   let scripts := map (fun x => lookup_script (cmaps c) x) items in
   let all_user := cgen c :: cred c :: scripts in
-  let nofault := negb (existsb (existsb is_fault) all_user) && negb (existsb is_ctx (cevents c)) in
+  let ctx_ends := existsb is_ctx (cevents c) || cprectx c in
+  let nofault := negb (existsb (existsb is_fault) all_user) && negb ctx_ends in
   let mapped_scripts := map (fun x => lookup_script (cmaps c) x) (omapped c) in
   let wr := if fe then [] else flat_map all_writes mapped_scripts in
   let allowed_cancels := flat_map cancels_of (cred c :: scripts) in
@@ -310,11 +326,13 @@ Definition prop_ok (c : case) : bool :=
         | OVal v => negb fe && negb (is_void a) && memz v rw
         | ONoOutput => negb fe && negb (is_void a)
         | OUnit => fe || is_void a
-        | OErr ECtx => negb fe && existsb is_ctx (cevents c)
+        | OErr ECtx => negb fe && ctx_ends
         | OErr e => negb fe && existsb (err_eqb e) allowed_cancels
         | OPanic (PUser k) => memz k allowed_panics
         | OPanic PMulti => 2 <=? length rw
-        | OPanic PClosed => negb (length rw =? 0) && negb nofault && gen_finishClosesOutput
+        (* the runtime's send-on-closed-channel is not a panic of a user function: never allowed
+           (finding F13 is only reachable by preemption inside Write: free-running monitor) *)
+        | OPanic PClosed => false
         end)
        (* nothing cancelled, ended or panicked: exactly-once and the reducer's single output *)
        && (if nofault && negb (trivial_case c) then
